@@ -227,14 +227,66 @@ fn run_batch(key_len: usize, shapes: Vec<Shape>) -> Result<Vec<(usize, Vec<Findi
     match key_len {
         1 => go!(1),
         2 => go!(2),
+        3 => go!(3),
         4 => go!(4),
+        5 => go!(5),
+        6 => go!(6),
+        7 => go!(7),
         8 => go!(8),
+        9 => go!(9),
+        10 => go!(10),
+        11 => go!(11),
+        12 => go!(12),
+        15 => go!(15),
         16 => go!(16),
+        18 => go!(18),
+        20 => go!(20),
+        22 => go!(22),
+        32 => go!(32),
         33 => go!(33),
+        35 => go!(35),
+        43 => go!(43),
+        45 => go!(45),
+        48 => go!(48),
+        53 => go!(53),
+        57 => go!(57),
+        59 => go!(59),
+        60 => go!(60),
         64 => go!(64),
+        65 => go!(65),
+        69 => go!(69),
+        71 => go!(71),
+        77 => go!(77),
+        87 => go!(87),
+        112 => go!(112),
         128 => go!(128),
+        138 => go!(138),
+        149 => go!(149),
+        159 => go!(159),
+        162 => go!(162),
+        199 => go!(199),
+        207 => go!(207),
+        219 => go!(219),
+        232 => go!(232),
         255 => go!(255),
+        284 => go!(284),
+        306 => go!(306),
+        332 => go!(332),
+        363 => go!(363),
+        446 => go!(446),
+        455 => go!(455),
+        456 => go!(456),
         500 => go!(500),
+        502 => go!(502),
+        503 => go!(503),
+        575 => go!(575),
+        576 => go!(576),
+        672 => go!(672),
+        673 => go!(673),
+        808 => go!(808),
+        809 => go!(809),
+        967 => go!(967),
+        969 => go!(969),
         1000 => go!(1000),
         n => Err(format!("unsupported key length {n}")),
     }
@@ -292,19 +344,47 @@ pub fn shapes(thorough: bool) -> Vec<Shape> {
             out.push(Shape { key_len: 1, n: 256, dist: Dist::Ones });
             out.push(Shape { key_len: 1, n: 256, dist: Dist::Twos });
         }
-        if (!quick || l == 8) && (l == 2 || l == 4 || l == 8 || l == 16) {
-            // block multiples up to two inner levels
-            let fan = (4096 - 16) / (l + 8) + 1;
-            for j in [fan - 1, fan, fan + 1, 2 * fan] {
-                for d in [-1i64, 0, 1] {
-                    let n = (j as i64 * b as i64 + d).max(1) as usize;
-                    out.push(Shape { key_len: l, n, dist: Dist::Ones });
+    }
+    // inner-node boundaries: for key lengths at which the node-capacity arithmetic has no slack
+    // (remainder of the fan-out division within 8 bytes of either end, leaf block filled exactly
+    // or all but a few bytes) and the standard lengths: leaf counts around one and two full inner
+    // nodes, each with the last leaf full, one short, one over
+    for l in FAN_LENGTHS {
+        let b = 4096 / (57 + l); // headers per leaf block
+        let fan = (4096 - 16) / (l + 8) + 1; // children of an inner node
+        let heavy = fan * b > 3000;
+        if quick && heavy {
+            continue;
+        }
+        let mut leaves: Vec<usize> = vec![fan - 1, fan, fan + 1, fan + 2, fan + fan / 2 + 1, fan + fan / 2 + 2, 2 * fan, 2 * fan + 1];
+        if !heavy || !quick {
+            leaves.extend([fan * fan, fan * fan + 1].into_iter().filter(|x| x * b <= 4000));
+        }
+        leaves.sort();
+        leaves.dedup();
+        for j in leaves {
+            for d in [-1i64, 0, 1] {
+                let total = (j as i64 * b as i64 + d).max(1) as usize;
+                if l == 1 {
+                    // 256 distinct keys at most: 200 keys, one of them carries the rest as versions
+                    if total > 200 {
+                        out.push(Shape { key_len: 1, n: 100, dist: Dist::Run { pos: 1, r: total - 99, flavour: 0 } });
+                    }
+                } else if l > 2 || total <= 32_000 {
+                    // (two-byte keys: present keys are the odd counters below 65536)
+                    out.push(Shape { key_len: l, n: total, dist: Dist::Ones });
                 }
             }
         }
     }
     out
 }
+
+/// Key lengths of the inner-node boundary family (see `shapes`).
+pub const FAN_LENGTHS: [usize; 63] = [
+    1, 2, 3, 4, 5, 6, 7, 8, 9, 10, 11, 12, 15, 16, 18, 20, 22, 32, 33, 35, 43, 45, 48, 53, 57, 59, 60, 64, 65, 69, 71, 77, 87, 112, 128, 138, 149, 159, 162, 199, 207, 219, 232, 255, 284, 306, 332, 363,
+    446, 455, 456, 500, 502, 503, 575, 576, 672, 673, 808, 809, 967, 969, 1000,
+];
 
 pub fn run(thorough: bool, threads: usize) -> (IndexStats, Vec<(Shape, Vec<Finding>)>) {
     let all = shapes(thorough);
